@@ -703,7 +703,8 @@ class Run:
                     olv = self.lvalue(args[1], fr)
                     if olv[0] == "cell":
                         self._save(olv, ("ap", "read", base))
-            self._slv = lv
+            # the operator returns its left operand: for a temporary (`(HashWriter{} << x).GetSHA256()`) that is the mutated value
+            self._slv = lv if lv[0] != "tmp" else ("tmp", new)
             return new
         if op in ("++", "--") and len(args) >= 1:
             lv = self.lvalue(args[0], fr)
